@@ -30,23 +30,29 @@ def packFin (f : Fmt) (s : Bool) (q : Nat) (e : Int) : Nat :=
     if ef ≥ (f.expMax : Int) then sgn + f.infBits
     else sgn + ef.toNat * 2 ^ f.fracBits + (q - 2 ^ f.fracBits)
 
+/-- The rounding core: nearest-even significand `q` on the grid `2^et` for the positive value
+`(m + σ) * 2^e` (σ ∈ (0,1) iff `sticky`; precondition when `sticky`: `m` has ≥ p + 2 bits).
+`et = max (e + bitLen m - p) emin`; the result satisfies `q ≤ 2^p`. -/
+def roundCore (f : Fmt) (m : Nat) (e : Int) (sticky : Bool) : Nat × Int :=
+  let l := bitLen m
+  let et : Int := max (e + (l : Int) - (f.p : Int)) f.emin
+  let sh : Int := et - e
+  if sh ≤ 0 then (m * 2 ^ (-sh).toNat, et)
+  else
+    let k := sh.toNat
+    let q := m / 2 ^ k
+    let rem := m % 2 ^ k
+    let half := 2 ^ (k - 1)
+    let up : Bool := if rem > half then true else if rem = half then (sticky || q % 2 = 1) else false
+    (if up then q + 1 else q, et)
+
 /-- Round `(-1)^s * (m + σ) * 2^e`, `σ ∈ (0,1)` iff `sticky`, to nearest even.
     Precondition when `sticky`: `m` has at least `p + 2` bits (callers ensure it). -/
 def roundFin (f : Fmt) (s : Bool) (m : Nat) (e : Int) (sticky : Bool) : Nat :=
   if m = 0 then f.zeroBits s
   else
-    let l := bitLen m
-    let et : Int := max (e + (l : Int) - (f.p : Int)) f.emin
-    let sh : Int := et - e
-    if sh ≤ 0 then packFin f s (m * 2 ^ (-sh).toNat) et
-    else
-      let k := sh.toNat
-      let q := m / 2 ^ k
-      let rem := m % 2 ^ k
-      let half := 2 ^ (k - 1)
-      let up : Bool := if rem > half then true else if rem = half then (sticky || q % 2 = 1) else false
-      let q' := if up then q + 1 else q
-      if q' = 2 ^ f.p then packFin f s (2 ^ f.fracBits) (et + 1) else packFin f s q' et
+    let r := roundCore f m e sticky
+    if r.1 = 2 ^ f.p then packFin f s (2 ^ f.fracBits) (r.2 + 1) else packFin f s r.1 r.2
 
 /-- Signed exact integer `(-1)^s m` -/
 def sInt (s : Bool) (m : Nat) : Int := if s then -(m : Int) else (m : Int)
